@@ -353,3 +353,26 @@ package verifier
 //@ requires verifierWF(v) && ociDocOK(v.ociTrustPolicyDoc)
 //@ ensures[C12.skip-consistent] result2 == nil ==> result1 != nil && result == isSkip(result1)
 //@ ensures[C12.skip-consistent] result2 != nil ==> !result && result1 == nil
+
+// ---- C12: thin no-panic contracts (generated by `govc sweep`, then completed by hand where a callee needs more) ----
+
+//@ func New
+//@ props C12
+//@ modifies any
+
+//@ func NewBlobVerifierFromConfig
+//@ props C12
+//@ modifies any
+
+//@ func NewFromConfig
+//@ props C12
+//@ modifies any
+
+//@ func NewOCIVerifierFromConfig
+//@ props C12
+//@ modifies any
+
+//@ func NewWithOptions
+//@ props C12
+//@ modifies any
+
